@@ -21,6 +21,8 @@ def norm_out(v):
         return out
     if isinstance(v, (str, int, bool)) or v is None:
         return v
+    if type(v).__module__.startswith("pycountry"):
+        return {"pycountry": type(v).__name__, "fields": norm_out(dict(getattr(v, "_fields", {})))}
     if isinstance(v, dict):
         return {str(k): norm_out(x) for k, x in v.items()}
     if isinstance(v, (list, tuple)):
